@@ -26,12 +26,14 @@ NONTRIVIAL = {
 
 # (family, quick K, thorough K)
 BATTERY = {
-    "C01": [("rand", 500, 30000), ("stop", 300, 10000), ("dead", 150, 6000), ("ties", 60, 448)],
-    "C04": [("rand", 500, 30000), ("stop", 300, 10000), ("ties", 120, 448), ("dead", 100, 4000)],
-    "C02": [("stop", 700, 40000), ("dead", 250, 12000), ("ties", 60, 448)],
-    "C03": [("dead", 400, 20000), ("rand", 400, 20000), ("stop", 200, 8000)],
+    "C01": [("rand", 500, 30000), ("stop", 300, 10000), ("dead", 150, 6000), ("ties", 60, 448),
+            ("tiny", 60, 324)],
+    "C04": [("rand", 500, 30000), ("stop", 300, 10000), ("ties", 120, 448), ("dead", 100, 4000),
+            ("tiny", 60, 324)],
+    "C02": [("stop", 700, 40000), ("dead", 250, 12000), ("ties", 60, 448), ("tiny", 60, 324)],
+    "C03": [("dead", 400, 20000), ("rand", 400, 20000), ("stop", 200, 8000), ("tiny", 80, 324)],
     "C05": [("stop", 700, 40000), ("dead", 200, 8000), ("ties", 120, 448)],
-    "C06": [("stop", 600, 30000), ("dead", 300, 20000), ("rand", 200, 8000)],
+    "C06": [("stop", 600, 30000), ("dead", 300, 20000), ("rand", 200, 8000), ("tiny", 60, 324)],
     "C14": [("stop", 800, 40000), ("dead", 250, 12000)],
     "C10": [("hist", 250, 12000)],
     "C13": [("perm", 400, 20000)],
@@ -42,12 +44,16 @@ def game_key(g):
     return hashlib.sha256(json.dumps(g, sort_keys=True).encode()).hexdigest()[:16]
 
 
-def both_script(stopping):
+def both_script(stopping, variant=0):
+    """Both pruning modes on one description; variants differ in the order of the
+    two calls and in whether the second call reuses the first call's object."""
     mode = "solve" if stopping else "cond"
+    first = variant % 2 == 0
+    obj = "A" if variant % 4 >= 2 else "new"
     return [{"op": "snap", "d": 1},
-            {"op": "call", "d": 1, "prune": True, "mode": mode, "obj": "new"},
+            {"op": "call", "d": 1, "prune": first, "mode": mode, "obj": obj},
             {"op": "snap", "d": 1},
-            {"op": "call", "d": 1, "prune": False, "mode": mode, "obj": "new"},
+            {"op": "call", "d": 1, "prune": not first, "mode": mode, "obj": obj},
             {"op": "snap", "d": 1}]
 
 
@@ -81,7 +87,7 @@ def build_sessions(gens, exact=True):
             s["script"] = perm_script(d["stopping"])
         else:
             s["descs"] = [d["g"]]
-            s["script"] = both_script(d["stopping"])
+            s["script"] = both_script(d["stopping"], len(sessions))
         sessions.append(s)
     return sessions
 
